@@ -6,7 +6,7 @@ PROP = {
     'tests': [{'name': 'TestVerifC11', 'checks_quick': 40000, 'checks_thorough': 1200000}],
     'rule': 'rapid generates a namespace (objects in the root, in the predefined scopes and nested up to 3 deep inside '
             'Device/ThermalZone/Processor/PowerResource) and then chooses how each object is written: lexically nested, '
-            'hoisted into a Scope directive (absolute, relative or single-segment path), declared with a path-prefixed or '
+            'hoisted into a Scope directive (absolute, relative or single-segment path, or the root named by its prefix alone: Scope(\\)), declared with a path-prefixed or '
             '^-prefixed name, with minimal or non-minimal PkgLength encodings, split over 1-3 tables; method bodies '
             '(Store/operators/If/Else/While/Return/Increment, references, forward and nested invocations with exact '
             'argument counts, and Name/Mutex/Event/OperationRegion/Field declarations placed directly in the body or inside '
